@@ -107,6 +107,48 @@ impl Chooser for Bounded {
     }
 }
 
+/// See `make_chooser`, source 5.
+pub struct Interfere {
+    victim: usize,
+    attacker: usize,
+    k: usize,
+    /// the interference starts after this many steps of the victim
+    after: usize,
+    victim_steps: usize,
+    /// whole attacker operations still to be completed before the victim gets its next step
+    owed: usize,
+    last_ops_done: usize,
+}
+
+impl Chooser for Interfere {
+    fn choose(&mut self, d: &Decision) -> usize {
+        let en = |t: usize| d.enabled.contains(&t);
+        // attacker operations completed since the last decision
+        if self.owed > 0 {
+            let done = d.ops_done[self.attacker];
+            if done > self.last_ops_done {
+                self.owed = self.owed.saturating_sub(done - self.last_ops_done);
+            }
+            self.last_ops_done = done;
+        }
+        if self.owed > 0 && en(self.attacker) {
+            return self.attacker;
+        }
+        if en(self.victim) {
+            self.victim_steps += 1;
+            if self.victim_steps > self.after && d.in_op[self.victim] {
+                self.owed = self.k;
+                self.last_ops_done = d.ops_done[self.attacker];
+            }
+            return self.victim;
+        }
+        if en(self.attacker) {
+            return self.attacker;
+        }
+        d.enabled[0]
+    }
+}
+
 thread_local! {
     /// Set by `exhaust.rs`: every chooser made on this thread is the shared enumerating one.
     pub static ENUM: std::cell::RefCell<Option<std::rc::Rc<std::cell::RefCell<PathState>>>> = const { std::cell::RefCell::new(None) };
@@ -144,7 +186,18 @@ pub fn make_chooser(src: &mut Src, nthreads: usize, horizon: usize, rep: &mut Re
     if free_mode() {
         rep.class("schedule:free-running-threads");
     }
-    let which = if nthreads < 2 { 0 } else { src.below(5) };
+    let which = if nthreads < 2 { 0 } else { src.below(6) };
+    if which == 5 {
+        // interference: after EVERY atomic step of one thread (the victim) another thread (the attacker) completes `k` whole
+        // operations - the pattern behind ABA and read-twice defects, which need several foreign writes inside one call
+        rep.class("schedule:interference");
+        let victim = src.below(nthreads);
+        let mut attacker = src.below(nthreads - 1);
+        if attacker >= victim {
+            attacker += 1;
+        }
+        return Box::new(Interfere { victim, attacker, k: 1 + src.below(2), after: src.below(6), victim_steps: 0, owed: 0, last_ops_done: 0 });
+    }
     if which == 4 {
         rep.class("schedule:explicit-bounded");
         let bound = src.below(4);
